@@ -7,6 +7,7 @@ import (
 	"fmt"
 	"strings"
 
+	quic "github.com/refraction-networking/uquic"
 	"github.com/refraction-networking/uquic/internal/ackhandler"
 	"github.com/refraction-networking/uquic/internal/monotime"
 	"github.com/refraction-networking/uquic/internal/protocol"
@@ -27,6 +28,8 @@ func init() {
 //       Timeout t         if alarm != 0 && alarm <= t { OnLossDetectionTimeout(t) }     (Conn.run)
 //       Other ts          ReceivedAck acknowledging everything sent in one space; its effect on the timer
 //                         sub-state is an oracle (ts), its effect on the three counters is checked
+// tail  Close hc size     Conn.handleCloseError (local application close; the CONNECTION_CLOSE datagram would be `size` bytes)
+//       ClosedRecv n      an n-byte datagram reaches the handler the transport installed for the closed connection
 //
 // Property monitors (own counters, independent of the model and of the handler's fields).
 type ampPkt struct {
@@ -50,7 +53,7 @@ func runAmplification(w *bufio.Writer, seed uint64, n int, _ []string) {
 		ampCase(w, r.Fork(), i, dist)
 	}
 	ampClientCases(w, r.Fork(), dist)
-	for _, k := range []string{"cases", "nontrivial", "ops", "send-permitted", "send-blocked", "send-blocked-unvalidated", "boundary-hit", "timeout-fired", "timeout-not-due", "ack", "validated-by-handshake", "validated-at-start", "never-validated", "pto-mode", "coalesced", "datagram>3x-first", "tiny-recv", "client-perspective"} {
+	for _, k := range []string{"cases", "nontrivial", "ops", "send-permitted", "send-blocked", "send-blocked-unvalidated", "boundary-hit", "close", "close-sent", "close-suppressed", "closed-recv", "closed-retransmit", "timeout-fired", "timeout-not-due", "ack", "validated-by-handshake", "validated-at-start", "never-validated", "pto-mode", "coalesced", "datagram>3x-first", "tiny-recv", "client-perspective"} {
 		fmt.Fprintf(w, "DIST\t%s\t%d\n", k, dist[k])
 	}
 }
@@ -72,7 +75,10 @@ func ampCase(w *bufio.Writer, r *u.Rng, idx int, dist map[string]int) {
 	}()
 
 	validated0 := r.Chance(1, 12)
-	a := ackhandler.VerifNewAmp(validated0, protocol.PerspectiveServer)
+	// the handler is the one a real server-side Conn created for itself (so that the history can end with
+	// the real Conn.handleCloseError and the real closed-connection handler of the transport)
+	cn := quic.VerifNewC14Conn(validated0)
+	a := ackhandler.VerifWrapAmp(cn.Handler())
 	h := a.Handler()
 	pto0 := a.TimerState().PTO0
 
@@ -311,6 +317,57 @@ func ampCase(w *bufio.Writer, r *u.Rng, idx int, dist map[string]int) {
 			record(-1, false)
 		}
 	}
+	// ---- the connection is closed locally (application close / CONNECTION_REFUSED), then datagrams keep arriving ----
+	var tailS, tobsS []string
+	if r.Chance(3, 5) {
+		hc := mValidated && r.Bool() // the handshake completes only after the client's address is validated
+		size := int(r.Pick(30, 60, 106, 114, 200, 1200))
+		limited := !mValidated && mSent >= 3*mRcvd
+		written, retrans := cn.Close(hc, size)
+		tailS = append(tailS, u.App("Close", u.B(hc), u.Z(int64(size))))
+		tobsS = append(tobsS, u.Z(int64(written)))
+		human = append(human, fmt.Sprintf("Close(hc=%v,%dB)=>written=%d,retransmitting=%v", hc, size, written, retrans))
+		dist["close"]++
+		// M5: an unvalidated server that has used up its limit stays silent when it closes, and later
+		if limited && mSent > 0 && written > 0 {
+			monfail("amplification/close-over-limit", fmt.Sprintf("unvalidated, sent=%d >= 3*received=%d, but a %d-byte CONNECTION_CLOSE was written", mSent, mRcvd, written))
+		}
+		if limited && mSent > 0 && retrans {
+			monfail("amplification/close-over-limit-retransmitting", "unvalidated server over the limit installed a retransmitting closed-connection handler")
+		}
+		if written > 0 {
+			dist["close-sent"]++
+			mSent += int64(written)
+			lastDgram = int64(written)
+		} else {
+			dist["close-suppressed"]++
+		}
+		if !mValidated && mSent > 3*mRcvd+lastDgram {
+			monfail("amplification/bound", fmt.Sprintf("unvalidated after close: sent %d > 3*%d + last datagram %d", mSent, mRcvd, lastDgram))
+		}
+		nrecv := r.Range(0, 9)
+		for j := 0; j < nrecv; j++ {
+			n := int(r.Pick(0, 1, 21, 30, 37, 37, 60, 1200))
+			q := cn.ClosedRecv(n)
+			mRcvd += int64(n)
+			tailS = append(tailS, u.App("ClosedRecv", u.Z(int64(n))))
+			tobsS = append(tobsS, u.Z(int64(q)))
+			human = append(human, fmt.Sprintf("ClosedRecv(%d)=>%d", n, q))
+			dist["closed-recv"]++
+			if q > 0 {
+				dist["closed-retransmit"]++
+				// M6: every datagram towards an unvalidated address starts at or under the limit
+				if !mValidated && mSent > 3*mRcvd {
+					monfail("amplification/closed-retransmit-over-limit", fmt.Sprintf("unvalidated: CONNECTION_CLOSE retransmitted with sent=%d > 3*received=%d", mSent, mRcvd))
+				}
+				mSent += int64(q)
+				lastDgram = int64(q)
+			}
+			if !mValidated && mSent > 3*mRcvd+lastDgram {
+				monfail("amplification/bound", fmt.Sprintf("unvalidated after close: sent %d > 3*%d + last datagram %d", mSent, mRcvd, lastDgram))
+			}
+		}
+	}
 	nt := 0
 	if sawBlockedUnval && sawPermittedUnval {
 		nt = 1
@@ -321,7 +378,7 @@ func ampCase(w *bufio.Writer, r *u.Rng, idx int, dist map[string]int) {
 	}
 	dist["cases"]++
 	dist["ops"] += len(opsS)
-	fmt.Fprintf(w, "CASE %d %s\n", nt, u.App("AmpCase", u.B(validated0), u.Z(pto0), u.List(opsS), u.List(obsS)))
+	fmt.Fprintf(w, "CASE %d %s\n", nt, u.App("AmpCase", u.B(validated0), u.Z(pto0), u.List(opsS), u.List(obsS), u.List(tailS), u.List(tobsS)))
 	if idx < 2 {
 		fmt.Fprintf(w, "SAMPLE\t%s\n", strings.Join(human, " "))
 	}
